@@ -313,8 +313,17 @@ End Family.
    (used by the reference validity predicate) *)
 Section Extras.
   Context {F : Type} (O : FOps F).
-  Definition query_xs (off glde : F) (positions : list nat) : list F :=
-    map (fun p => fmul O (fpow O glde p) off) positions.
+  (* square-and-multiply (FieldElement::exp_vartime); only used for the query coordinates, whose exponents
+     range over the whole LDE domain *)
+  Fixpoint fpow_pos (x : F) (p : positive) : F :=
+    match p with
+    | xH => x
+    | xO q => let r := fpow_pos x q in fmul O r r
+    | xI q => let r := fpow_pos x q in fmul O x (fmul O r r)
+    end.
+  Definition fpow_N (x : F) (e : N) : F := match e with N0 => fone O | Npos p => fpow_pos x p end.
+  Definition query_xs (off glde : F) (positions : list N) : list F :=
+    map (fun p => fmul O (fpow_N glde p) off) positions.
   Definition fam_step_trans (cols : list (FamCol (F:=F))) (cycles : list (list F)) (step : nat) (cur next : list F) : list F :=
     fam_trans O cols cur next (map (fun cyc => nth (Nat.modulo step (length cyc)) cyc (fzero O)) cycles).
 End Extras.
